@@ -975,15 +975,6 @@ Definition run_case (fn : Z) (args : list value) : value :=
   | _, _ => VErr E_BADCASE
   end.
 
-(* compact rendering of byte strings for the harness: VBytes b -> VList [VInt (length b); VInt (le_dec b)] *)
-Fixpoint vcompact (v : value) : value :=
-  match v with
-  | VBytes b => VList [VInt (zlen b); VInt (Z.of_N (le_dec b))]
-  | VList l => VList (map vcompact l)
-  | _ => v
-  end.
-Definition bytes_lit (len : nat) (n : N) : list N := le_enc len n.
-
 (* all observables of one correspondence case in one evaluation: export, lengths/flags, class selection on the exported
    header, parse of the exported bytes with the class the implementation selected *)
 Definition run_all (fam : Z) (cv xv kv pcv : value) (tzsize sigsz : Z) (dekv : value) : value :=
